@@ -247,14 +247,17 @@ func readerOps(conn int, evs []Event, calls []*call, observed map[int]int, emit 
 				remaining--
 				continue
 			}
+			if name == "PING" && len(e.Argv) == 1 {
+				// the client's own PING (pipe.Close / keep-alive): a one-command batch
+				emit(fmt.Sprintf("w %d,0,0,1", 9000000+e.Seq), "ok")
+				continue
+			}
 			// first command of a batch: find its call by tag (look ahead for untagged heads)
-			cid := ""
+			cid, ftag := "", ""
 			for j := i; j < len(evs) && cid == ""; j++ {
 				if evs[j].Kind == "c" && len(evs[j].Argv) > 1 {
-					cid = tagCall(strings.TrimLeft(evs[j].Argv[1], "nilerra"))
-					if cid == "" {
-						cid = tagCall(evs[j].Argv[1])
-					}
+					ftag = strings.TrimLeft(evs[j].Argv[1], "nilerra")
+					cid = tagCall(ftag)
 				}
 			}
 			n, err := strconv.Atoi(cid)
@@ -262,18 +265,26 @@ func readerOps(conn int, evs []Event, calls []*call, observed map[int]int, emit 
 				continue // connection died before the tagged command arrived
 			}
 			cl := calls[n]
-			parts := make([]string, len(cl.cmds))
-			for k, w := range cl.cmds {
+			cmdsOf, base := cl.cmds, n*100
+			if cl.kind == "cache" || cl.kind == "multicache" {
+				// the mux may split a DoMultiCache across connections: each 5-command unit is its own batch
+				// (batch boundaries between reply-bearing commands are not observable)
+				unit, _ := strconv.Atoi(ftag[strings.IndexByte(ftag, '_')+1:])
+				cmdsOf, base = cl.cmds[unit*5:unit*5+5], n*100+unit*5
+			}
+			parts := make([]string, len(cmdsOf))
+			for k, w := range cmdsOf {
 				b := func(x bool) string {
 					if x {
 						return "1"
 					}
 					return "0"
 				}
-				parts[k] = fmt.Sprintf("%d,%s,%s,%d", n*100+k, b(w.noReply), b(w.isUnsub), w.nargs)
+				parts[k] = fmt.Sprintf("%d,%s,%s,%d", base+k, b(w.noReply), b(w.isUnsub), w.nargs)
 			}
 			emit("w "+strings.Join(parts, ";"), "ok")
-			remaining = len(cl.cmds) - 1
+			remaining = len(cmdsOf) - 1
+			_ = cl
 		case "m":
 			obs := "?"
 			if c, ok := observed[e.Mid]; ok {
